@@ -82,6 +82,8 @@ func TestVX_C03daemon(t *testing.T) {
 		}
 	}
 	jobs = append(jobs,
+		// regulation range ends below 255 (configured maxPwm): fail-safe must still be 255
+		vxJob{Fans: []vxJobFan{{ID: "fanA", Kind: "hwmon", OrigMode: 1, OrigPwm: 60, Stored: true, MaxPwm: 120}}, Sensor: "hwmon", Curve: "linear", OpChoices: true, Cycles: 3},
 		vxJob{Fans: []vxJobFan{{ID: "fanA", Kind: "file", OrigMode: -1, OrigPwm: 127, Stored: true}}, Sensor: "file", Curve: "linear", OpChoices: true, Cycles: 3},
 		vxJob{Fans: []vxJobFan{{ID: "fanA", Kind: "hwmon", OrigMode: -1, OrigPwm: 90, NoEnable: true, Stored: true}}, Sensor: "file", Curve: "pid", OpChoices: true, Cycles: 3},
 		// two fans: op-level points would depend on the tie order of simultaneously woken controllers, so only time-based points
@@ -273,6 +275,14 @@ func TestVX_C09(t *testing.T) {
 					}
 					_ = si
 					add(f)
+				}
+				// cmd back-ends: the command of a component cannot be started at all (lost its x bit) during one window
+				if heavy {
+					for _, c := range comps[:4] {
+						for _, w := range []int{0, 2} {
+							add(vxFault{Component: c.c, Kind: "nostart", Window: w})
+						}
+					}
 				}
 				// faults that are still active when the daemon is told to stop
 				for _, c := range comps {
